@@ -1418,6 +1418,14 @@ class OptionStore:
                 # to keep the old options. If they are not valid keep the new
                 # defaults but warn.
                 self.options[key] = value
+                # The option object is replaced: keep it yielding to the same
+                # parent, and let the options that yield to it follow the new
+                # object.
+                value.parent = oldval.parent
+                value.yielding = oldval.yielding
+                for opt in self.options.values():
+                    if opt.parent is oldval:
+                        opt.parent = value
                 try:
                     value.set_value(oldval.value)
                 except MesonException:
